@@ -52,6 +52,50 @@ def p2pInitWant (dflt : Mode) (hasSetSub : Bool) (userArg : Uid) (me : Uid) (mod
   let w := if userArg ≠ "" ∧ userArg ≠ me then dflt else p2pSan (unmarshalKeep dflt mode).1
   w ||| modeJoin
 
+/-- which subscriptions initTopicP2P makes when fewer than two are there (cases 1 and 2): the requester's, the other
+participant's, whether the topic counts as newly created, whether the requester's subscription is new, and whether only the
+requester's is to be made -/
+structure P2PPlan where
+  sub1 : SubRow
+  sub2 : SubRow
+  created : Bool
+  newsub : Bool
+  user1only : Bool
+
+def p2pPlan (a : Actor) (peer : Uid) (u1 u2 : User) (subs : List SubRow) (mode : String) (priv : PrivArg) (userArg : Uid) : P2PPlan :=
+  let sub1? : Option SubRow := if subs.length = 1 then subs.find? (·.user = a.uid) else none
+  let sub2? : Option SubRow := if subs.length = 1 then subs.find? (·.user ≠ a.uid) else none
+  let user1only := sub2?.isSome
+  -- the other participant's subscription
+  let (sub2, created) : SubRow × Bool := match sub2? with
+    | some s => (s, false)
+    | none => ({ user := peer, want := 0, given := p2pSan u1.auth }, true)
+  -- the requester's subscription
+  let hasSetSub := mode ≠ "" ∨ userArg ≠ ""
+  let (sub1, newsub) : SubRow × Bool := match sub1? with
+    | some s => (s, false)
+    | none =>
+      let privTok : Tok := match priv with | .val s => some s | _ => none
+      ({ user := a.uid, want := p2pInitWant sub2.given hasSetSub userArg a.uid mode, given := p2pSan (p2pDefault a.lvl u2), priv := privTok }, true)
+  let sub2 := if !user1only then { sub2 with want := p2pSan (p2pDefault a.lvl u2) } else sub2
+  { sub1 := sub1, sub2 := sub2, created := created, newsub := newsub, user1only := user1only }
+
+/-- cases 1 and 2: read the two accounts, make what is missing, cache both participants -/
+def Ctx.p2pMake (c : Ctx) (a : Actor) (peer : Uid) (mode : String) (priv : PrivArg) (userArg : Uid) (rowExists : Bool)
+    (subs : List SubRow) (lastId delId : Int) : Ctx × Option P2PInit :=
+  let key := p2pKey a.uid peer
+  let (c, ok) := c.call "UserGetAll"
+  if !ok then (c.emit a.sid (ctrl 500 key), none) else
+  match c.w.user? a.uid, c.w.user? peer with
+  | some u1, some u2 =>
+    let p := p2pPlan a peer u1 u2 subs mode priv userArg
+    let (c, ok) := if rowExists then c.subsCreate key (if p.user1only then p.sub1 else p.sub2)
+                   else c.call "TopicCreateP2P" (effCreateP2P key p.sub1 p.sub2)
+    if !ok then (c.emit a.sid (ctrl 500 key), none) else
+    let t : Topic := { name := key, lastId := lastId, delId := delId, perUser := [(a.uid, pudOfRow p.sub1), (peer, pudOfRow p.sub2)] }
+    (c.putLive t, some { t := t, created := p.created, newsub := p.newsub })
+  | _, _ => (c.emit a.sid (ctrl 404 key), none)
+
 def Ctx.initP2P (c : Ctx) (a : Actor) (peer : Uid) (mode : String) (priv : PrivArg) (userArg : Uid) : Ctx × Option P2PInit :=
   let key := p2pKey a.uid peer
   let fail (c : Ctx) (code : Nat) : Ctx × Option P2PInit := (c.emit a.sid (ctrl code key), none)
@@ -74,36 +118,7 @@ def Ctx.initP2P (c : Ctx) (a : Actor) (peer : Uid) (mode : String) (priv : PrivA
     -- case 4: attach
     let t : Topic := { name := key, lastId := lastId, delId := delId, perUser := subs.map (fun s => (s.user, pudOfRow s)) }
     (c.putLive t, some { t := t, created := false, newsub := false })
-  else
-  -- cases 1 and 2: one or both subscriptions are to be made
-  let (c, ok) := c.call "UserGetAll"
-  if !ok then fail c 500 else
-  match c.w.user? a.uid, c.w.user? peer with
-  | some u1, some u2 =>
-    let sub1? : Option SubRow := if subs.length = 1 then subs.find? (·.user = a.uid) else none
-    let sub2? : Option SubRow := if subs.length = 1 then subs.find? (·.user ≠ a.uid) else none
-    let user1only := sub2?.isSome
-    -- the other participant's subscription
-    let (sub2, created) : SubRow × Bool := match sub2? with
-      | some s => (s, false)
-      | none => ({ user := peer, want := 0, given := p2pSan u1.auth }, true)
-    -- the requester's subscription
-    let hasSetSub := mode ≠ "" ∨ userArg ≠ ""
-    let (sub1, newsub) : SubRow × Bool := match sub1? with
-      | some s => (s, false)
-      | none =>
-        let privTok : Tok := match priv with | .val s => some s | _ => none
-        ({ user := a.uid, want := p2pInitWant sub2.given hasSetSub userArg a.uid mode, given := p2pSan (p2pDefault a.lvl u2), priv := privTok }, true)
-    let sub2 := if !user1only then { sub2 with want := p2pSan (p2pDefault a.lvl u2) } else sub2
-    -- create what is missing
-    let (c, ok) := match row with
-      | none => c.call "TopicCreateP2P" (effCreateP2P key sub1 sub2)
-      | some _ => c.subsCreate key (if user1only then sub1 else sub2)
-    if !ok then fail c 500 else
-    let t : Topic := { name := key, lastId := lastId, delId := delId,
-                       perUser := [(a.uid, pudOfRow sub1), (peer, pudOfRow sub2)] }
-    (c.putLive t, some { t := t, created := created, newsub := newsub })
-  | _, _ => fail c 404
+  else c.p2pMake a peer mode priv userArg row.isSome subs lastId delId
 
 /-! ### evictUser, notifySubChange: the p2p branches -/
 
